@@ -242,6 +242,21 @@ def _tracked_closure(call_fn):
                             and x.id not in exclude:
                         tracked.add(x.id)
                         changed = True
+        # control dependence: a local tested by an `if` that guards a write of a tracked name feeds it as well
+        for cond in [n for n in ast.walk(call_fn) if isinstance(n, (ast.If, ast.IfExp, ast.While))]:
+            inner = cond.body + cond.orelse if isinstance(cond, (ast.If, ast.While)) else [cond]
+            writes_tracked = any(
+                (isinstance(x, ast.Name) and isinstance(x.ctx, ast.Store) and x.id in tracked) or
+                (isinstance(x, ast.Call) and isinstance(x.func, ast.Attribute) and isinstance(x.func.value, ast.Name)
+                 and x.func.value.id in tracked and x.func.attr in ("append", "extend", "insert", "update", "setdefault"))
+                for st in inner for x in ast.walk(st)) or (isinstance(cond, ast.IfExp) and any(
+                    cond in list(ast.walk(a_.value)) for nm_ in tracked for a_ in assigned.get(nm_, []) if hasattr(a_, "value")))
+            if writes_tracked:
+                for x in ast.walk(cond.test):
+                    if isinstance(x, ast.Name) and x.id in assigned and assigned[x.id] and x.id not in tracked \
+                            and x.id not in exclude:
+                        tracked.add(x.id)
+                        changed = True
     _CLOSURE[key] = (call_fn, tracked)
     return tracked
 
